@@ -178,8 +178,13 @@ def dm1_layout(ctx, rule="R-LAYOUT"):
             return
         a = sends[0].value[2]
         pgf = field("_pgn")
-        want = (("c", 0), mk_bin("&", mk_bin(">>", pgf, ("c", 8)), ("c", 255)), mk_bin("&", pgf, ("c", 255)))
-        if a[:3] != want or a[4] not in (DATA, r.evalr.heap.get(DATA)) or pg != ("c", sae.PGN["DM01"]):
+        # evaluate the PF / PS arguments with the PGN field's constructor constant
+        def num(x):
+            v = G.renorm(G.subst(x, lambda y: pg if y == pgf and pg is not None else None))
+            return v
+        got = (num(a[0]), num(a[1]), num(a[2])) if len(a) >= 5 else None
+        want = (("c", 0), ("c", sae.PGN["DM01"] >> 8), ("c", sae.PGN["DM01"] & 0xFF))
+        if got != want or a[4] not in (DATA, r.evalr.heap.get(DATA)):
             ctx.violated("R-DM1-CYCLE", f, "DM1 is sent as PGN 0xFECA with the assembled payload", "send_pgn arguments are %s (pgn field %s)" % ([pretty(x)[:30] for x in a], pg), sends[0].node)
             return
     if n:
@@ -205,34 +210,47 @@ def dm1_layout(ctx, rule="R-LAYOUT"):
                 (term, coef), = a[0].items()
                 ivar = term
                 offs[x] = (int(coef), int(a[1]))
+        if ivar is None or ivar[0] != "iter" or ivar[1][0] != "call" or ivar[1][1] != ("glob", "range"):
+            ctx.unknown(rule, "DM1 parser loop variable %s not a range" % (pretty(ivar) if ivar else None))
+            return
+        ra = ivar[1][2]
+        if len(ra) == 1:
+            start, count, step = 0, ra[0], 1
+        elif len(ra) == 3 and is_const(ra[0]) and is_const(ra[2]) and cval(ra[2]) > 0:
+            start, step = cval(ra[0]), cval(ra[2])
+            count = mk_bin("//", mk_bin("-", ra[1], ra[0]), ra[2])
+        else:
+            ctx.unknown(rule, "DM1 parser range %s" % pretty(ivar[1]))
+            return
+        # byte position of index expression  coef*i + c  in iteration k:  coef*(start + step*k) + c
         inst = "DM1 parser: code i is bytes 4i+2 .. 4i+5 little-endian"
         def leaf(s, offs=offs):
             if s in offs:
-                return BV.input("q%d" % offs[s][1], 8)
+                return BV.input("q%d" % (offs[s][0] * start + offs[s][1]), 8)
             return None
         bv = BitEval(leaf).ev(dsym)
         want = [("b", "q%d" % (2 + k // 8), k % 8) for k in range(32)]
-        strides = {c for c, _ in offs.values()}
-        if strides == {4} and bv.window(0, 32) == want and bv.width() is not None and bv.width() <= 32 and ivar[0] == "iter":
+        strides = {c * step for c, _ in offs.values()}
+        if strides == {4} and bv.window(0, 32) == want and bv.width() is not None and bv.width() <= 32:
             ctx.holds(rule, inst)
         else:
             ctx.violated(rule, p, inst, "code assembled from %s with stride %s" % (bv.describe(), sorted(strides)), p.node)
         # count
-        rng = ivar[1] if ivar and ivar[0] == "iter" else None
         inst = "DM1 parser: number of codes = (len - 2) / 4"
         okc = False
-        if rng is not None and rng[0] == "call" and rng[1] == ("glob", "range") and len(rng[2]) == 1:
-            from .arith import qr_eval, Unk
-            L = lensym(DATA)
-            try:
-                q = qr_eval(rng[2][0], L, 4, 2, 2)
-                okc = q.a == 1 and q.lo == q.hi == 0
-            except Unk:
-                okc = False
+        from .arith import qr_eval, Unk
+        L = lensym(DATA)
+        try:
+            q = qr_eval(count, L, 4, 2, 2)
+            okc = q.a == 1 and q.lo == q.hi == 0
+        except Unk:
+            okc = None
         if okc:
             ctx.holds(rule, inst)
+        elif okc is None:
+            ctx.unknown(rule, "DM1 parser loop count %s not evaluable" % pretty(count)[:80])
         else:
-            ctx.violated(rule, p, inst, "loop count is %s" % (pretty(rng) if rng else None), p.node)
+            ctx.violated(rule, p, inst, "loop count is %s" % pretty(count)[:80], p.node)
         # decoded fields delivered
         d = [x for _, e in r.effects() if e.kind == "call" and mname(e.value) == "append" for x in e.value[2] if x[0] == "dict"]
         if d:
@@ -266,33 +284,18 @@ def lamps(ctx, rule="R-LAMP"):
             ctx.holds(rule, inst)
     if any(not (0 <= x <= 3) for v in lut.values() for x in v):
         ctx.violated(rule, P.func("DtcLamp", "get_data"), "lamp codes are 2-bit", "table holds %s" % lut, cls.node)
-    # encoder: unroll the loop over the constant key list
+    # encoder: the loop over the constant key list is unrolled by the path enumerator
     g = P.func("DtcLamp", "get_data")
-    loop = [n for n in ast.walk(g.node) if isinstance(n, ast.For)]
-    if len(loop) != 1 or not isinstance(loop[0].target, ast.Tuple):
-        ctx.unknown(rule, "get_data loop not recognised")
+    data = None
+    for r in runs(ctx, g):
+        if r.term != "return" or any(p for _, p in r.guards()):
+            continue
+        rets = [e.value for _, e in r.effects() if e.kind == "ret"]
+        if rets:
+            data = rets[-1]
+    if data is None:
+        ctx.unknown(rule, "get_data: path on which every lamp state is valid not found")
         return
-    ev = SymEval(P, g)
-    for st in g.node.body:
-        if st is loop[0]:
-            break
-        ev.step(st)
-    tnames = [t.id for t in loop[0].target.elts]
-    for idx, key in enumerate(keys):
-        ev.env[tnames[0]] = ("c", idx)
-        ev.env[tnames[1]] = ("c", key)
-        en = Enumerator(unroll=0)
-        paths = en.block(loop[0].body)
-        chosen = None
-        for p in paths:
-            r = replay(P, g, p, evalr=ev)
-            if r.feasible and all(not pol for _, pol in r.guards()):
-                chosen = r
-        if chosen is None:
-            ctx.unknown(rule, "get_data body path not found")
-            return
-        ev = chosen.evalr
-    data = ev.env.get("data")
     status = ("p", "status_dic")
     def leaf(s):
         if s[0] == "sub" and is_const(s[2]) and s[2][1] in (0, 1) and s[1][0] == "sub" and s[1][1][0] == "dict" and s[1][2][0] == "sub" and is_const(s[1][2][2]):
